@@ -204,6 +204,8 @@ func runC19(c *Ctx) {
 	ruleConflictsSymm(c, p, "C19.symm")
 	ruleWrapperElem(c, p, "C19.wrapper-elem")
 	ruleNullableTotal(c, p, "C19.nullable-total")
+	ruleDecimalGuard(c, p, "C19.decimal-guard")
+	ruleFreshTargets(c, p, "C19.fresh")
 	ruleConfigParsed(c, p, "C19.config")
 	ruleSliceOrder(c, p, "C19.slices")
 	ruleAdopt(c, p, "C19.adopt")
@@ -461,6 +463,13 @@ func ruleInferTables(c *Ctx, p *core.Program, prop string) {
 	}
 	a := decimalTable(pk, inf)
 	b := decimalTable(pk, dd)
+	// the cascade written as an if-chain, or with the parse in a helper: read it from the SSA form
+	if a == nil {
+		a = decimalTableSSA(p.Method(core.PkgProto, "ColAuto", "Infer"))
+	}
+	if b == nil {
+		b = decimalTableSSA(p.Method(core.PkgProto, "ColumnType", "decimalDowncast"))
+	}
 	if a == nil || b == nil {
 		c.R.Unk(rule, "decimal", cfg, p.Pos(inf.Pos()), "precision cascade not recognised (conditions outside comparisons of one integer with constants)")
 		return
@@ -1308,4 +1317,220 @@ func ruleNullableTotal(c *Ctx, p *core.Program, rule string) {
 	}
 	c.R.Count("column types offering Nullable()", n)
 	c.R.Floor(rule, cfg, n, 20)
+}
+
+// ---- C19.decimal-guard: only Decimal(P, S) has a precision as its first parameter
+func ruleDecimalGuard(c *Ctx, p *core.Program, rule string) {
+	c.R.Rule(rule, "ColumnType.decimalDowncast reads the first parameter as the precision; that is true for the generic `Decimal(P, S)` only - the sized aliases Decimal32(S) ... Decimal256(S) carry the scale there. The parse (strconv.Atoi) is therefore reachable only through the equal edge of a comparison of Base() with the constant ColumnTypeDecimal: a prefix test lets `Decimal64(4)` downcast to Decimal32, and Conflicts then calls an 8-byte and a 4-byte decimal compatible")
+	cfg := p.Cfg.Name
+	dd := p.Method(core.PkgProto, "ColumnType", "decimalDowncast")
+	if !c.must(p, "ColumnType.decimalDowncast", dd != nil) {
+		return
+	}
+	decK := "Decimal"
+	eq := core.CondEdges(dd, true, func(cond ssa.Value) (bool, bool) {
+		bo, ok := cond.(*ssa.BinOp)
+		if !ok || (bo.Op != token.EQL && bo.Op != token.NEQ) {
+			return false, false
+		}
+		for _, pair := range [][2]ssa.Value{{bo.X, bo.Y}, {bo.Y, bo.X}} {
+			k, okc := pair[1].(*ssa.Const)
+			if !okc || k.Value == nil || k.Value.Kind() != constant.String || constant.StringVal(k.Value) != decK {
+				continue
+			}
+			if _, isBase := core.CallTo(stripConv(pair[0]), func(f *types.Func) bool { return core.IsMethod(f, core.PkgProto, "ColumnType", "Base") }); isBase {
+				return bo.Op == token.EQL, true
+			}
+		}
+		return false, false
+	})
+	n := 0
+	for _, call := range core.Calls(dd) {
+		f := core.CalleeFunc(call)
+		isParse := f != nil && f.Pkg() != nil && f.Pkg().Path() == "strconv"
+		if !isParse {
+			// the parse may live in a helper of ColumnType
+			if g := core.StaticFn(call); g != nil && g.Blocks != nil && pkgOf(g) != nil && pkgOf(g).Path() == core.PkgProto {
+				isParse = core.ReachesCallee(g, func(h *types.Func) bool { return h.Pkg() != nil && h.Pkg().Path() == "strconv" }, 0)
+			}
+		}
+		if !isParse {
+			continue
+		}
+		n++
+		key := core.CallKey(dd, call) + "/decimal-only"
+		if len(eq) > 0 && core.OnlyViaEdges(dd, call.(ssa.Instruction), eq) {
+			c.R.Ok(rule, key, cfg, p.Pos(call.Pos()), "parsed only when Base() == Decimal")
+		} else {
+			c.R.Bad(rule, key, cfg, p.Pos(call.Pos()), "the first parameter is parsed as a precision although the base is not known to be exactly `Decimal`: for the sized aliases it is the scale, so decimals of different width are downcast to the same type and reported compatible")
+		}
+	}
+	if n == 0 {
+		c.R.Unk(rule, core.FuncName(dd), cfg, p.Pos(dd.Pos()), "no strconv parse in decimalDowncast")
+	}
+}
+
+// decimalTableSSA: precision -> decimal width decided by the comparison cascade of fn, read from the SSA
+// form (if-chains, switches and helpers that parse the precision look the same there). The cascade is
+// walked for every precision 0..100 from the comparison that dominates the others; the width is the first
+// DecimalN mentioned on the way to the exit. nil when the cascade is not made of comparisons of the parsed
+// precision with constants only.
+func decimalTableSSA(fn *ssa.Function) map[int]int {
+	if fn == nil || fn.Blocks == nil {
+		return nil
+	}
+	prec := map[ssa.Value]bool{}
+	for _, call := range core.Calls(fn) {
+		f := core.CalleeFunc(call)
+		isParse := f != nil && f.Pkg() != nil && f.Pkg().Path() == "strconv" && f.Name() == "Atoi"
+		if !isParse {
+			if g := core.StaticFn(call); g != nil && g.Blocks != nil && pkgOf(g) != nil && pkgOf(g).Path() == core.PkgProto {
+				if core.ReachesCallee(g, func(h *types.Func) bool { return h.Pkg() != nil && h.Pkg().Path() == "strconv" && h.Name() == "Atoi" }, 0) {
+					isParse = true
+				}
+			}
+		}
+		if !isParse || call.Value() == nil {
+			continue
+		}
+		for _, r := range *call.Value().Referrers() {
+			if e, ok := r.(*ssa.Extract); ok && e.Index == 0 {
+				prec[e] = true
+			}
+		}
+	}
+	if len(prec) == 0 {
+		return nil
+	}
+	for changed := true; changed; {
+		changed = false
+		for _, b := range fn.Blocks {
+			for _, in := range b.Instrs {
+				ph, ok := in.(*ssa.Phi)
+				if !ok || prec[ph] {
+					continue
+				}
+				any, all := false, true
+				for _, e := range ph.Edges {
+					if prec[e] {
+						any = true
+					} else if _, isC := core.ConstInt(e); !isC {
+						all = false
+					}
+				}
+				if any && all {
+					prec[ph] = true
+					changed = true
+				}
+			}
+		}
+	}
+	isPrec := func(v ssa.Value) bool { return prec[stripConv(v)] }
+	var tests []*ssa.If
+	for _, b := range fn.Blocks {
+		if ifi, ok := b.Instrs[len(b.Instrs)-1].(*ssa.If); ok {
+			if bo, ok := ifi.Cond.(*ssa.BinOp); ok {
+				_, cy := core.ConstInt(bo.Y)
+				_, cx := core.ConstInt(bo.X)
+				if isPrec(bo.X) && cy || isPrec(bo.Y) && cx {
+					tests = append(tests, ifi)
+				}
+			}
+		}
+	}
+	if len(tests) == 0 {
+		return nil
+	}
+	root := tests[0]
+	for _, t := range tests {
+		if t.Block().Dominates(root.Block()) {
+			root = t
+		}
+	}
+	width := func(b *ssa.BasicBlock) int {
+		for _, in := range b.Instrs {
+			s := in.String()
+			if v, ok := in.(ssa.Value); ok {
+				s += " " + v.Type().String()
+			}
+			for _, op := range in.Operands(nil) {
+				if *op != nil {
+					s += " " + (*op).String() + " " + (*op).Type().String()
+				}
+			}
+			for _, w := range []int{256, 128, 64, 32} {
+				if strings.Contains(s, sprintf("Decimal%d", w)) {
+					return w
+				}
+			}
+		}
+		return 0
+	}
+	// phi values need the predecessor: the value of a phi of precisions is the precision itself or a constant
+	out := map[int]int{}
+	for pv := 0; pv <= 100; pv++ {
+		b := root.Block()
+		steps := 0
+		for ; steps < 40; steps++ {
+			if w := width(b); w != 0 && b != root.Block() {
+				out[pv] = w
+				break
+			}
+			switch t := b.Instrs[len(b.Instrs)-1].(type) {
+			case *ssa.If:
+				bo, ok := t.Cond.(*ssa.BinOp)
+				if !ok {
+					return nil
+				}
+				var a, k int64
+				var okc bool
+				left := isPrec(bo.X)
+				if left {
+					k, okc = core.ConstInt(bo.Y)
+				} else if isPrec(bo.Y) {
+					k, okc = core.ConstInt(bo.X)
+				} else {
+					return nil
+				}
+				if !okc {
+					return nil
+				}
+				a = int64(pv)
+				x, y := a, k
+				if !left {
+					x, y = k, a
+				}
+				var r bool
+				switch bo.Op {
+				case token.LSS:
+					r = x < y
+				case token.LEQ:
+					r = x <= y
+				case token.GTR:
+					r = x > y
+				case token.GEQ:
+					r = x >= y
+				case token.EQL:
+					r = x == y
+				case token.NEQ:
+					r = x != y
+				default:
+					return nil
+				}
+				if r {
+					b = t.Block().Succs[0]
+				} else {
+					b = t.Block().Succs[1]
+				}
+			case *ssa.Jump:
+				b = b.Succs[0]
+			default:
+				steps = 1000 // Return / Panic: no width on this path
+			}
+		}
+		if _, ok := out[pv]; !ok {
+			out[pv] = 0
+		}
+	}
+	return out
 }
